@@ -10,10 +10,11 @@
      /\ vertex_manifold (g_nverts p) (g_faces p)                  -- every vertex umbrella is ONE fan
      /\ closed / border_is_cycle(s), connected, euler = 2 | 0 | 1 | 0   -- the topology of the named shape
      /\ counts = the documented functions of p  /\  vertices on the named surface  /\  switches honoured.
-   C14_topology_partial proves the third line for every parametric generator except unit_triangle, and the second line
+   C14_topology_partial proves the third line for every parametric generator except unit_triangle (of which only
+   connectedness is proved: its border loop and Euler characteristic are missing), and the second line
    (vertex umbrellas) is proved only for the constant-table solids (C14_tables); for the parametric generators both are
    established, per tested parameter tuple, by the kernel-evaluated checker whose soundness is C14_runtime_checker_sound.
-   C14_on_surface_partial leaves out cylinder (distance to the axis), the rims of ring / flat_ring and sphere_fibonacci;
+   C14_on_surface_partial leaves out the rim of flat_ring and sphere_fibonacci (both checked numerically on every run);
    C14_params_honoured_partial leaves out the apex angle defect of ring (bisection loop, checked numerically only). *)
 From Coq Require Import ZArith List Bool Reals.
 Import ListNotations.
@@ -62,7 +63,8 @@ Theorem C14_topology_partial :
      disk_surface (ring_nverts N true k) (ring_faces N true k) (map (fun t => t) (zrange (N * k + 2))) /\
      disk_surface (ring_nverts N false k) (ring_faces N false k) (map (fun t => t + 1) (zrange (N * k)))) /\
   (forall N k, 1 <= N * k ->
-     disk_surface (flat_ring_nverts N k) (flat_ring_faces N k) (map (fun t => t) (zrange (N * k + 2)))).
+     disk_surface (flat_ring_nverts N k) (flat_ring_faces N k) (map (fun t => t) (zrange (N * k + 2)))) /\
+  (forall nu nv u, 2 <= nu -> 2 <= nv -> connected (unit_triangle_nverts nu nv u) (unit_triangle_faces nu nv u)).
 Proof. exact all_topology. Qed.
 Print Assumptions C14_topology_partial.
 
@@ -123,7 +125,12 @@ Theorem C14_on_surface_partial :
   (forall P1 P2 P3 P4 v, tetrahedron_coords Rops P1 P2 P3 P4 v = [P1; P2; P3; P4]) /\
   (forall P1 P2 P3 P4 P5 P6 P7 P8 c t v, hexahedron_coords Rops P1 P2 P3 P4 P5 P6 P7 P8 c t v = [P1; P2; P3; P4; P5; P6; P7; P8]) /\
   (forall P1 P2 P3 P4 c v, let X := hexahedron_4pts_coords Rops P1 P2 P3 P4 c v in
-     List.nth 0 X P1 = P1 /\ List.nth 1 X P1 = P2 /\ List.nth 3 X P1 = P3 /\ List.nth 4 X P1 = P4 /\ length X = 8%nat).
+     List.nth 0 X P1 = P1 /\ List.nth 1 X P1 = P2 /\ List.nth 3 X P1 = P3 /\ List.nth 4 X P1 = P4 /\ length X = 8%nat) /\
+  (forall N d o k apex, exists rim, ring_coords Rops N d o k apex = apex :: rim /\ Forall on_unit_circle rim) /\
+  (forall (P1 P2 : vec R) (radius : R) N caps, (0 < dot3 (vsub Rops P2 P1) (vsub Rops P2 P1))%R ->
+     let a := vnormalized Rops (vsub Rops P2 P1) in
+     exists ringpts, cylinder_coords Rops P1 P2 radius N caps = ringpts ++ (if caps then [P1; P2] else []) /\
+       Forall (fun p => exists P, (P = P1 \/ P = P2) /\ dot3 (vsub Rops p P) a = 0%R /\ dist2 p P = (radius * radius)%R) ringpts).
 Proof. exact all_on_surface. Qed.
 Print Assumptions C14_on_surface_partial.
 
